@@ -303,7 +303,10 @@ def py_len(it, x):
         m = x.cls.lookup("__len__")
         if m is not MISSING:
             return it.call(BoundMethod(m, x), [], {})
-    raise it.exc("TypeError", f"object of type {type(x).__name__} has no len()")
+    if x is None or isinstance(x, (bool, int, float)) or is_sym(x) or (type(x) is Instance and not getattr(x.cls, "is_namedtuple", False)
+                                                                        and all(getattr(c, "node", None) is not None or c.name == "object" for c in x.cls.mro)):
+        raise it.exc("TypeError", f"object of type {type(x).__name__} has no len()")
+    raise Unsupported(f"len() of {type(x).__name__} is not modelled")
 
 
 def py_round(it, x, ndigits=None):
@@ -1114,6 +1117,8 @@ class SStrA:
                     raise Unsupported("split of a symbolic-length str with this separator")
                 return SplitList(self.view, sep, maxsplit)
             return Builtin("SStrA.split", split)
+        if hasattr(str, name):
+            raise Unsupported(f"str.{name} on a symbolic-length str is not modelled")
         raise it.exc("AttributeError", name)
 
     def py_truth(self, it):
